@@ -393,32 +393,49 @@ def gen_iface(rng, max_blocks=4):
 # rendering
 # ---------------------------------------------------------------------------
 
-def ns_decls(I):
-    return " ".join('xmlns:s%d="%s"' % (i, u) for i, u in enumerate(I.nss))
+def ns_decls(I, pmap=None):
+    """xmlns declarations; pmap[i] is the prefix of namespace i in this
+    document (default s<i>), pmap[len(nss)] a prefix bound to an unrelated URI."""
+    if pmap is None:
+        return " ".join('xmlns:s%d="%s"' % (i, u) for i, u in enumerate(I.nss))
+    return " ".join(['xmlns:%s="%s"' % (pmap[i], u) for i, u in enumerate(I.nss)]
+                    + ['xmlns:%s="urn:c12:unrelated"' % pmap[len(I.nss)]])
 
 
-def render_fields(I, fields):
+def gen_pmap(rng, I):
+    """Documents written independently bind their prefixes independently: a
+    permutation of s0..s<k> over the k namespaces and one unrelated URI."""
+    names = ["s%d" % i for i in range(len(I.nss) + 1)]
+    rng.shuffle(names)
+    return names
+
+
+def _pfx(pmap, ns):
+    return "s%d" % ns if pmap is None else pmap[ns]
+
+
+def render_fields(I, fields, pmap=None):
     out = []
     for fname, t in fields:
         if t[0] == "b":
             ty = "xsd:" + t[1]
         else:
-            ty = "s%d:%s" % (I.blocks[t[1]].ns, t[2])
+            ty = "%s:%s" % (_pfx(pmap, I.blocks[t[1]].ns), t[2])
         out.append('<xsd:element name="%s" type="%s"/>' % (fname, ty))
     return "".join(out)
 
 
-def render_block(I, blk):
+def render_block(I, blk, pmap=None):
     out = []
     for name, fields in blk.types:
         out.append('<xsd:complexType name="%s"><xsd:sequence>%s</xsd:sequence></xsd:complexType>'
-                   % (name, render_fields(I, fields)))
+                   % (name, render_fields(I, fields, pmap)))
     for e in blk.elems:
         if e[1] is None:         # element of a named type
-            out.append('<xsd:element name="%s" type="s%d:%s"/>' % (e[0], I.blocks[e[2][1]].ns, e[2][2]))
+            out.append('<xsd:element name="%s" type="%s:%s"/>' % (e[0], _pfx(pmap, I.blocks[e[2][1]].ns), e[2][2]))
         else:
             out.append('<xsd:element name="%s"><xsd:complexType><xsd:sequence>%s</xsd:sequence>'
-                       '</xsd:complexType></xsd:element>' % (e[0], render_fields(I, e[1])))
+                       '</xsd:complexType></xsd:element>' % (e[0], render_fields(I, e[1], pmap)))
     return "".join(out)
 
 
@@ -430,8 +447,11 @@ class SchemaEl(object):
         self.form = form
         self.refs = []                # ("import", ns, loc|None) | ("include", loc)
         self.body = body
+        self.nsdecl = None            # own xmlns declarations (else the document's)
 
     def render(self, nsdecl):
+        if self.nsdecl is not None:
+            nsdecl = self.nsdecl
         t = ' targetNamespace="%s"' % self.tns if self.tns else ""
         refs = []
         for r in self.refs:
@@ -830,6 +850,9 @@ def gen_partition(rng, I, max_docs=6):
     style = rng.choice(["abs", "rel", "mixed", "mixed"])
     nsdecl = ns_decls(I)
     one_dir = rng.random() < 0.4
+    indep_prefixes = rng.random() < 0.5      # every schema root binds its prefixes on its own
+    if indep_prefixes:
+        L.shape["independent_prefixes"] = True
     qstyle = rng.random() < 0.25
     counter = [0]
 
@@ -943,10 +966,14 @@ def gen_partition(rng, I, max_docs=6):
                         if ons != g[0].ns and ("n", ons) not in seen:
                             seen.append(("n", ons))
                             s.refs.append(("import", I.nss[ons], None))
-            s.body = "".join(render_block(I, b) for b in g)
+            pm = gen_pmap(rng, I) if indep_prefixes else None
+            s.nsdecl = ns_decls(I, pm)
+            s.body = "".join(render_block(I, b, pm) for b in g)
             inline.append((s, g))
     for k, (url, s, blks) in enumerate(xdocs):
-        s.body = "".join(render_block(I, b) for b in blks)
+        pm = gen_pmap(rng, I) if indep_prefixes else None
+        s.nsdecl = ns_decls(I, pm)
+        s.body = "".join(render_block(I, b, pm) for b in blks)
     # --- bring in the schema documents nobody depends on (and some others: diamonds)
     wimp_x = {}          # wdoc index -> [xdoc index]
     glue = []
@@ -1432,7 +1459,7 @@ class Watchdog(object):
 
 
 LOAD_CPU = [10]          # CPU seconds one client construction may use (normal: ~0.01 s)
-LOAD_MEM = 1 << 30       # address space one layout's loads may add to the process (bytes)
+LOAD_MEM = [1 << 30]     # address space one layout's loads may add to the process (bytes)
 LAYOUT_WALL = 300        # wall seconds after which a layout's child process is given up (no verdict)
 
 
@@ -1509,7 +1536,7 @@ def run_layout(L, idx, tier, tmp):
                 with open("/proc/self/statm") as f:
                     vm = int(f.read().split()[0]) * os.sysconf("SC_PAGE_SIZE")
                 soft, hard = resource.getrlimit(resource.RLIMIT_AS)
-                lim = vm + LOAD_MEM
+                lim = vm + LOAD_MEM[0]
                 if hard != resource.RLIM_INFINITY:
                     lim = min(lim, hard)
                 resource.setrlimit(resource.RLIMIT_AS, (lim, hard))
@@ -1894,10 +1921,11 @@ def run(ck):
                 ck.failing_input("C12:load-does-not-terminate",
                                  "constructing the client does not finish within %d s of CPU time / %d MB of "
                                  "additional memory (%s) [%s; policy %d]"
-                                 % (LOAD_CPU[0], LOAD_MEM >> 20, runaway[2], L.desc, runaway[0]),
+                                 % (LOAD_CPU[0], LOAD_MEM[0] >> 20, runaway[2], L.desc, runaway[0]),
                                  dict(L.payload(), policy=runaway[0],
                                       steps=[(True, runaway[1])]))
-                LOAD_CPU[0] = min(LOAD_CPU[0], 2)       # the verdict is in: keep the rest of the run short
+                LOAD_CPU[0] = min(LOAD_CPU[0], 3)       # the verdict is in: keep the rest of the run short
+                LOAD_MEM[0] = min(LOAD_MEM[0], 256 << 20)
                 continue
             if idx % 40 == 0 and "probe" in got:
                 ck.sample({"layout": L.desc, "documents": sorted(L.docs), "in_store": sorted(L.in_store),
